@@ -426,9 +426,12 @@ pub fn c01_strategy() -> BoxedStrategy<SchedConvCase> {
                 proptest::collection::vec(0usize..600, 0..3),
                 proptest::bool::weighted(0.2),
                 tape_strategy(200),
+                // handlers that take their time (virtual ms) before they answer: a response is
+                // waited for however long its handler takes
+                prop_oneof![2 => Just(vec![]), 1 => proptest::collection::vec(proptest::sample::select(vec![0u16, 0, 1, 500, 11_000, 31_000, 61_000]), 1..4)],
             )
         })
-        .prop_map(|(items, mask, order, cuts, big_first, tape)| {
+        .prop_map(|(items, mask, order, cuts, big_first, tape, linger)| {
             let n = items.len();
             let mut conv = Conversation::default();
             let mut progs = vec![];
@@ -458,7 +461,7 @@ pub fn c01_strategy() -> BoxedStrategy<SchedConvCase> {
                 conv.reqs.push(r);
             }
             let script = vec![Step::Send { from: 0, to: 0 }, Step::HalfClose];
-            SchedConvCase { case: ConvCase { conv, progs, script, transport: Transport::Mem }, groups, collect_first: false, enter_order: if own_tasks { order } else { None }, cuts, hold_after_read: None, feed: None, intr: if tape.len() % 4 == 3 { 2 + (tape.len() % 3) as u8 } else { 0 }, hold_writer: None, linger: vec![], tape }
+            SchedConvCase { case: ConvCase { conv, progs, script, transport: Transport::Mem }, groups, collect_first: false, enter_order: if own_tasks { order } else { None }, cuts, hold_after_read: None, feed: None, intr: if tape.len() % 4 == 3 { 2 + (tape.len() % 3) as u8 } else { 0 }, hold_writer: None, linger, tape }
         })
         .boxed()
 }
@@ -491,7 +494,8 @@ pub fn c01_oracle(sc: &SchedConvCase, so: &SchedObs) -> vcore::runner::Verdict {
         .class_if(sc.case.progs.iter().any(|p| matches!(p.finish, Finish::Writer { .. })), "raw-writer")
         .class_if(sc.case.progs.iter().any(|p| matches!(p.finish, Finish::Drop)), "drop")
         .class_if(sc.case.progs.iter().any(|p| matches!(p.finish, Finish::WriterUnused)), "writer-unused")
-        .class_if(view.msgs.iter().any(|m| m.chunks > 0), "chunked-response");
+        .class_if(view.msgs.iter().any(|m| m.chunks > 0), "chunked-response")
+        .class_if(sc.linger.iter().any(|l| *l >= 10_000), "handler-takes-10s-or-more");
     Verdict::Pass(g)
 }
 
